@@ -90,6 +90,31 @@ pub fn search(r: &mut Report, tier: &str, _seed: u64) {
             } }
         }
     }
+    // ---- PNCounter: merge of two partial replicas == union of knowledge, on the positive AND the negative side ----
+    {
+        let gens2: Vec<(u8, u64, bool)> = vec![(0, 1, false), (1, 2, true), (0, 1, true), (1, 1, false)];
+        for prog in seqs(gens2.len(), 3) {
+            if prog.is_empty() { continue; }
+            let mut p = PNCounter::new();
+            let mut pops = Vec::new();
+            for k in &prog {
+                let (a, s, neg) = gens2[*k];
+                let op = match (neg, s) { (false, 1) => p.inc(a), (false, _) => p.inc_many(a, s), (true, 1) => p.dec(a), (true, _) => p.dec_many(a, s) };
+                p.apply(op.clone()); pops.push((op, a, neg));
+            }
+            let subs = seqs(pops.len(), 2);
+            for d1 in &subs { for d2 in &subs {
+                let (mut r1, mut r2) = (PNCounter::new(), PNCounter::new());
+                let mut mp = [0u64; 2]; let mut mn = [0u64; 2];
+                for (d, rep) in [(d1, &mut r1), (d2, &mut r2)] { for i in d { let (op, a, neg) = &pops[*i]; rep.apply(op.clone());
+                    if *neg { mn[*a as usize] = mn[*a as usize].max(op.dot.counter); } else { mp[*a as usize] = mp[*a as usize].max(op.dot.counter); } } }
+                let mut m12 = r1.clone(); m12.merge(r2.clone());
+                let mut m21 = r2.clone(); m21.merge(r1.clone());
+                let want = (mp[0] + mp[1]) as i64 - (mn[0] + mn[1]) as i64;
+                r.case("pncounter.merge", m12.read() == BigInt::from(want) && m21.read() == BigInt::from(want) && m12 == m21, &|| format!("prog {:?} {:?} + {:?}", prog, d1, d2), &|| format!("read {} / {} want {}", m12.read(), m21.read(), want));
+            } }
+        }
+    }
     // ---- edge values: zero steps, totals near u64::MAX on several actors (the SUM exceeds u64; per-actor totals do not) ----
     {
         let big = u64::MAX - 10;
